@@ -173,6 +173,13 @@ func (a *Asm) Label(name string) *Asm {
 	return a
 }
 
+// Mark records the current position under name without emitting anything
+// (used for data blobs appended to code).
+func (a *Asm) Mark(name string) *Asm {
+	a.labels[name] = len(a.buf)
+	return a
+}
+
 // PushLabel emits PUSH2 <label>.
 func (a *Asm) PushLabel(name string) *Asm {
 	a.buf = append(a.buf, PUSH2, 0, 0)
